@@ -95,6 +95,33 @@ func init() {
 }
 
 func init() {
+	Properties["C16"] = PropertySpec{
+		Rules: []string{"R-ORDERINDEP", "R-CONST", "R-SELFCMP"},
+		Explanation: "Narrow claim. Of the intersection-point property only the order-independence machinery and the error constants are decided: the hemisphere correction is a function of all " +
+			"four vertices, distance ties fall back to a comparison of the points, the two edges are canonicalised by one consistently renamed pair of statements, the exact method runs only " +
+			"when the stable one declined, and none of the error constants of the stable method is weakened.",
+		NotCovered: "the accuracy claim itself (8 * 2^-53 rad): that the stable method's running error bound is right and that it declines exactly when needed is floating-point behaviour; " +
+			"the collinear-edge rule of the exact method.",
+	}
+	anchorFiles["C16"] = []string{"s2/edge_crossings.go", "r3/precisevector.go", "s2/point.go"}
+	Properties["C17"] = PropertySpec{
+		Rules: []string{"R-ERRMODEL", "R-CONST", "R-UNITS", "R-SELFCMP"},
+		Explanation: "Narrow claim. Of the distance primitives only the documented error model is decided: the error allowances of the interior-distance test and of the error functions are not " +
+			"weakened, the error of UpdateMinDistance is the larger of the interior-case and the point-distance error, and chord angles are not combined with built-in arithmetic.",
+		NotCovered: "that the computed distances, projections and interpolations meet those bounds; the interior/vertex case decision; max distance through the antipode; polyline walks.",
+	}
+	anchorFiles["C17"] = []string{"s2/edge_distances.go", "s2/polyline.go", "s2/point.go", "s1/chordangle.go", "s2/polyline_measures.go"}
+	Properties["C20"] = PropertySpec{
+		Rules: []string{"R-TOLERANCE", "R-CONST", "R-SELFCMP"},
+		Explanation: "Narrow claim. Of the approximation operators only what is visible in code shape is decided: the tessellator compares its (under-)estimate with the requested tolerance times " +
+			"the documented scale factor, takes the estimate at both interior fractions, does not raise its tolerance floor, and the snap radii include their rounding allowances.",
+		NotCovered: "the achieved error of tessellation, subsampling and snapping on concrete inputs; projection round trips; the wedge tracking of SubsampleVertices. Observed and not covered: " +
+			"IntLatLngSnapper.SnapPoint rounds radians (not degrees) times 10^exponent; NewCellIDSnapper leaves the snap radius at 0.",
+	}
+	anchorFiles["C20"] = []string{"s2/edge_tessellator.go", "s2/projections.go", "s2/polyline.go", "s2/builder_snapper.go", "s2/latlng.go"}
+}
+
+func init() {
 	Properties["C12"] = PropertySpec{
 		Rules: []string{"R-CONST", "R-LAZY", "R-MIRROR", "R-TWIN", "R-SELFCMP", "R-UNITS"},
 		Explanation: "Narrow claim. Of the cell geometry only what is visible in code shape is decided: none of the documented error allowances in cell.go, paddedcell.go, stuv.go and the " +
@@ -249,18 +276,21 @@ func init() {
 	}
 	for prop, files := range anchorFiles {
 		pp := Properties[prop]
-		pp.Rules = append(pp.Rules, "R-DUP")
+		pp.Rules = append(pp.Rules, "R-DUP", "R-RENAME")
 		Properties[prop] = pp
 		keys := []string{"scan"}
 		for _, f := range files {
 			keys = append(keys, "dup:"+f+":")
 		}
-		only(prop, map[string][]string{"R-DUP": keys})
+		only(prop, map[string][]string{"R-DUP": keys, "R-RENAME": keys})
 	}
 	// C04: the lazily built index must be complete before an indexed containment query reads it - the status protocol of
 	// R-LOCK applies, the re-entry obligation (incremental updates, known finding D3 under C13/C14) does not.
 	only("C04", map[string][]string{"R-LOCK": {"atomic-status", "balanced", "publish", "status-store"}})
 	only("C06", map[string][]string{"R-ALLLOOPS": {"CrossingEdgeQuery"}})
+	only("C16", map[string][]string{"R-CONST": {"intersection", "projection", "robustNormal", "s2.dblError"}})
+	only("C17", map[string][]string{"R-CONST": {"interiorDist", "minUpdate", "ChordAngle).Max", "edge_distances"}, "R-UNITS": {"edge_distances", "UpdateM", "updateEdge", "s2.UpdateMaxDistance"}})
+	only("C20", map[string][]string{"R-CONST": {"Snapper", "Tessellat", "tessellat"}})
 	only("C12", map[string][]string{"R-CONST": {"Cell)", "PaddedCell", "interiorDist", "maxXYZtoUVError", "cellPadding", "stuv", "poleMinLat"}, "R-MIRROR": {"projection"}, "R-TWIN": {"twin:s2.CellID.", "Cell.latitude"}, "R-UNITS": {"Cell)"}})
 	only("C11", map[string][]string{"R-RANGE": {"CellID)", "CellUnion", "cellunion", "CellIndex", "cellIndex", "s2intersect"}, "R-TWIN": {"twin:s2.CellID."}})
 	predicateConsts := []string{"maxDeterminantError", "detErrorMultiplier", "triage", "stableSign", "cosDistance", "sin2Distance", "s2.dblEpsilon", "s2.dblError", "r1.dblEpsilon", "s1.dblEpsilon"}
